@@ -271,8 +271,26 @@ def call_lib(I, name, args, kwargs, node):
             return fut
 
         def pmap(I_, a_, kw_):
+            # Executor.map submits every call at once and hands back an iterator over the results in submission order: an exception of
+            # a call is raised when the iteration reaches its result - never, if nobody iterates
             seqs = [seq_elts(I_, x, node) for x in a_[1:]]
-            return ListLit([I_.call(a_[0], list(args_), {}, node) for args_ in zip(*seqs)])  # Executor.map yields in submission order
+            outcomes = []
+            for args_ in zip(*seqs):
+                try:
+                    outcomes.append(("ok", I_.call(a_[0], list(args_), {}, node)))
+                except _Raise as e:
+                    outcomes.append(("raise", e))
+
+            def results(I2, a2, kw2):
+                for kind, v in outcomes:
+                    if kind == "raise":
+                        raise v
+                out = ListLit([v for _, v in outcomes])
+                out.pyname = "generator"
+                return out
+            it = Obj("MapResults", OrderedDict())
+            it.fields["__iter__"] = Fn("py", impl=results, name="__iter__")
+            return it
         pool.fields.update(submit=Fn("py", impl=submit, name="Executor.submit"), map=Fn("py", impl=pmap, name="Executor.map"),
                            shutdown=Fn("py", impl=lambda I_, a_, kw_: Const(None), name="Executor.shutdown"))
         pool.fields["__enter__"] = Fn("py", impl=lambda I_, a_, kw_: pool, name="__enter__")
